@@ -931,6 +931,45 @@ theorem export_bystander_unaffected_file (prior : Export.Prior) (args : Args) (o
   · unfold Ingest.itemsWith; rw [hrC]; simp only [hC]
   · unfold Ingest.itemsWith; rw [hrB]; simp only [g1]
 
+section Encoder
+open TLX.Spec.Containers TLX.Props.C12
+
+/-- the events of the capture that are not the victim's -/
+def evNotVictim (v : Variant) (victim : Container.Item → Bool) (ev : Ev) : Bool :=
+  match scale v ev with
+  | some it => !victim it
+  | none => true
+
+/-- … for the independent container encoder: the capture re-encoded WITHOUT the victim's packet blocks, any variant. -/
+theorem export_bystander_unaffected_encoded (prior : Export.Prior) (args : Args) (o : MainLoop.Opts) (ho : optsOf args = some o)
+    (kl : Option Keylog.Str) (v : Variant) (evs : List Ev) (victim : Container.Item → Bool)
+    (hwf : v.WF evs) (hwf' : v.WF (evs.filter (evNotVictim v victim)))
+    (X : List (Item Keylog.Key)) (IS : List (Nat × Pipeline.Info))
+    (hC : go Keylog.srcHexClass args.checksumTest 0 (evs.filterMap (scale v)) = .ok (X, IS))
+    (hd : ∀ a ∈ tcpView o (keptOf (fun it => !victim it) (evs.filterMap (scale v)) X),
+      ∀ b ∈ tcpView o (keptOf victim (evs.filterMap (scale v)) X), sameFlow a b = false)
+    (hk : dsbOnly (keptOf victim (evs.filterMap (scale v)) X) = []) :
+    ∃ XB ISB blocksC quicB quicC,
+      Ingest.itemsWith Keylog.srcHexClass args.checksumTest v.isLegacy (encode v evs) = .ok (X, IS) ∧
+      Ingest.itemsWith Keylog.srcHexClass args.checksumTest v.isLegacy (encode v (evs.filter (evNotVictim v victim))) =
+        .ok (XB, ISB) ∧
+      framesFrom mask H P prior args (fileKeysOf kl) XB (Ingest.lookup ISB) =
+        .ok ((tlsFrames H P (Ingest.lookup ISB) o (fileKeysOf kl) XB).flatten ++ quicB) ∧
+      framesFrom mask H P prior args (fileKeysOf kl) X (Ingest.lookup IS) = .ok (blocksC.flatten ++ quicC) ∧
+      Merge (tlsFrames H P (Ingest.lookup ISB) o (fileKeysOf kl) XB)
+        ((tlsConvs H P (Ingest.lookup IS) o (keptOf victim (evs.filterMap (scale v)) X)).map
+          (convFrames H P (Ingest.lookup IS) (keysOf (fileKeysOf kl) X))) blocksC := by
+  have r1 := readPrefix_of_read _ _ _ (reader_roundtrip v evs hwf)
+  have r2 := readPrefix_of_read _ _ _ (reader_roundtrip v _ hwf')
+  have : (evs.filter (evNotVictim v victim)).filterMap (scale v) =
+      (evs.filterMap (scale v)).filter fun it => !victim it :=
+    filterMap_filter_comm (scale v) (fun it => !victim it) (evNotVictim v victim)
+      (fun ev => by unfold evNotVictim; cases scale v ev <;> rfl) evs
+  rw [this] at r2
+  exact export_bystander_unaffected_file mask H P prior args o ho _ _ kl _ _ _ victim r1 r2 X IS hC hd hk
+
+end Encoder
+
 end C03
 
 end TLX.Props.ExportInputs2
